@@ -42,6 +42,10 @@ CLAIMED = {
    text="Twin execution under the race detector: every constituent FS exists twice (inside the mount FS / stand-alone clone); each operation of a seeded history through the mount FS is mirrored on the stand-alone twin that an independent longest-whole-element-prefix model selects, at the remainder path, and afterwards ALL twins must be equal and the results must agree, so a wrong target, a wrong remainder or a side effect elsewhere is visible at the step it happens. Cross-mount renames are checked against 'moved with the same bytes and mode, or failed with both sides unchanged'. All subsets of six mount points (nested and string-prefix look-alikes) up to size 2 plus 20 larger (quick) / up to size 4 (thorough), repeated because the mount table's iteration order is randomised. AddMount preconditions follow a model; 2..8 goroutines mounting one point are released inside the check-then-insert window (150 / 3000 groups): exactly one wins.",
    note="Constituents are mem.FS. A cross-mount rename that fails where the model could complete it is counted, not flagged. Distinct MountPoints() orders observed are reported in the evidence.",
    technique="twin-execution runtime monitor with an independent routing model; race detector and gated concurrent AddMount groups"),
+ "C07": dict(level="exploration", design="4/C07",
+   text="Twin execution: two identical parents (mem; mount.FS with the view's directory being a mount point, above one, inside one, both, or unrelated; os.FS with native Sub; a parent exposing only Open; chains of two Sub calls) are driven through the view at n and directly at dir/n with seeded histories of namespace operations, Rename, Sub and reads (40 / 900 histories per configuration, 18 configurations). After every step result class and data, the composed namespace AND every constituent file system of both parents must be equal, and everything outside dir must be unchanged, so a write that bypasses a nested mount or escapes the directory is seen at the step it happens.",
+   note="Only the error class is compared (paths are C05's concern). Histories do not remove/rename the view's top directory. Symbolic links are never created.",
+   technique="twin-execution runtime monitor (view vs direct) with whole-composition state comparison"),
 }
 NOT_YET = "monitor not built yet in this session (see DESIGN.md section 4 for the planned runtime monitor)"
 props = [json.loads(l)["id"] for l in open("/verif/properties.jsonl")]
